@@ -178,7 +178,16 @@ class GPSData(BytesInterface):
             + f"{self.latitude:09.4f}"
             + self.east_west
             + f"{self.longitude:010.4f}"
-            + ("\0" * 3 if self.speed_knots <= 0 else f"{self.speed_knots:03}")
+            # speed field is 3 characters: x.y below 10 knots, whole knots from 10 up
+            + (
+                "\0" * 3
+                if self.speed_knots <= 0
+                else (
+                    f"{self.speed_knots:.1f}"
+                    if round(self.speed_knots, 1) < 10
+                    else f"{round(self.speed_knots):03d}"
+                )
+            )
             + ("\0" * 3 if not self.direction else f"{self.direction:03}")
         ).encode("ascii")
 
